@@ -7,7 +7,7 @@ from typing import Dict, List, Union
 from pydantic import BaseModel, Field
 from typing_extensions import Annotated
 
-from pycfmodel.constants import AWS_NOVALUE, CONTAINS_CF_PARAM, CONTAINS_SSM_PARAMETER
+from pycfmodel.constants import AWS_NOVALUE, CF_SUB_TOKEN, CONTAINS_SSM_PARAMETER
 from pycfmodel.model.base import FunctionDict
 from pycfmodel.utils import is_resolvable_dict
 
@@ -128,13 +128,15 @@ def resolve_sub(function_body, params: Dict, mappings: Dict[str, Dict], conditio
         text = function_body
 
     def replace_placeholder(match):
-        match_param = match.group(0)[2:-1]  # Remove ${ and trailing }
+        literal, match_param = match.groups()
+        if literal is not None:
+            return "${" + literal + "}"  # ${!Literal} is kept as ${Literal}
         if match_param in replacements:
             return str(resolve(replacements[match_param], params, mappings, conditions))
         return match.group(0)
 
     # Single pass: the text of a substituted value is never scanned again
-    return CONTAINS_CF_PARAM.sub(replace_placeholder, text)
+    return CF_SUB_TOKEN.sub(replace_placeholder, text)
 
 
 def resolve_select(function_body, params: Dict, mappings: Dict[str, Dict], conditions: Dict[str, bool]):
